@@ -66,6 +66,9 @@ def check_function(P, specs, key, outdir, timeout, tier):
             r.bounded = 'model loops unwound (unwind=%s, unwinding assertions on: complete when they pass)' % opts.get('unwind', '?')
         if 'unwind' in opts:
             kw['unwind'] = int(opts['unwind'])
+        if '#loop' in key and 'defs' not in kw:
+            # a loop-body slice speaks about ONE record at an arbitrary position: a 4 KiB harness buffer hosts every case
+            kw['defs'] = ('VERIF_CBMC', 'VERIF_ABSTRACT', 'VERIF_MAXBUF=4096UL')
         res = cbmcdrv.run_cbmc(info, timeout=timeout, **kw)
         r.obligations = res['obligations']
         r.cmd = res['cmd']
@@ -122,6 +125,9 @@ def bounded_confirmation(r, sp, timeout=300):
     if r.backend != 'cbmc' or not r.info.get('path'):
         return None, 'not applicable'
     bound_buf, unwind = 64, 8
+    m_ = re.match(r'maxbuf:(\d+)\s+unwind:(\d+)', (sp.extra.get('confirm', '') if sp else ''))
+    if m_:
+        bound_buf, unwind = int(m_.group(1)), int(m_.group(2))
     try:
         res = cbmcdrv.run_cbmc(r.info, timeout=timeout, defs=('VERIF_CBMC', 'VERIF_ABSTRACT', 'VERIF_MAXBUF=%dUL' % bound_buf),
                                unwind=unwind, unwind_assert=False, tag='.bounded')
